@@ -48,8 +48,10 @@ func resetScenario(c *caseOut, h *History, cfg config.Blockchain, sr *subjectRun
 	c.cnt.count("reset:runs")
 	c.cnt.add("reset:batches", len(bs)-b0)
 	c.cnt.count("reset:removed-blocks-" + bucket(int(cur-target)))
+	dbb := fold(bs, b0)
 	for _, b := range bs[b0:] {
-		c.line("rbatch "+abstractBatch(b, cfg.StateRootInHeader), "ok")
+		c.line("rbatch "+semAbstract(dbb, b, cfg.StateRootInHeader), "ok")
+		apply(dbb, b)
 	}
 	c.line("rdone", "ok")
 	final := fold(bs, len(bs))
@@ -61,7 +63,7 @@ func resetScenario(c *caseOut, h *History, cfg config.Blockchain, sr *subjectRun
 		rec := NewRecStore(materialise(db))
 		bc2, err := openNode(rec, cfg)
 		if err != nil {
-			c.fail("reset-resume-reopen", "crash after reset batch %d of %d (%s): reopening failed: %v", k-b0, len(bs)-b0, stageOf(bs[k-1]), err)
+			c.fail("reset-resume-reopen-"+stageOf(bs[k-1])+"-"+slug(err), "crash after reset batch %d of %d (%s): reopening failed: %v", k-b0, len(bs)-b0, stageOf(bs[k-1]), err)
 			continue
 		}
 		c.cnt.count("reset:resumed-from-" + stageOf(bs[k-1]))
@@ -121,4 +123,26 @@ func errObs(err error) string {
 		return "ok"
 	}
 	return "err"
+}
+
+// slug turns an error into a short stable name (hashes and numbers dropped).
+func slug(err error) string {
+	msg := err.Error()
+	var sb strings.Builder
+	words := 0
+	for _, w := range strings.Fields(msg) {
+		w = strings.Trim(w, ":,()")
+		if len(w) > 24 || strings.ContainsAny(w, "0123456789") || w == "" {
+			continue
+		}
+		if words > 0 {
+			sb.WriteByte('-')
+		}
+		sb.WriteString(strings.ToLower(w))
+		words++
+		if words == 5 {
+			break
+		}
+	}
+	return sb.String()
 }
